@@ -88,6 +88,15 @@ func c12Judge(cs *core.Case, env *Env, in, out string, lc core.LocalCounts) bool
 			if n == 0 {
 				viol("sandbox:missing", "iframe is emitted with attributes but without sandbox")
 			}
+			// "a missing attribute is added empty": no input iframe carried a sandbox => the added one is ""
+			if len(inputValues(oracle.Tokens(in), "iframe", "sandbox")) == 0 {
+				lc["added_sandbox_checked"]++
+				for _, a := range t.Attrs {
+					if a.Key == "sandbox" && a.Val != "" {
+						viol("sandbox:added-not-empty", fmt.Sprintf("the input iframe had no sandbox attribute but the added one reads %q", a.Val))
+					}
+				}
+			}
 		}
 	}
 	return judged
@@ -199,4 +208,5 @@ func runC12(ctx *core.Ctx) {
 	ctx.Floor("crossorigin_elements_judged", 2000)
 	ctx.Floor("iframes_judged", 2000)
 	ctx.Floor("sandbox_tokens_judged", 2000)
+	ctx.Floor("added_sandbox_checked", 500)
 }
